@@ -151,6 +151,22 @@ func (a *VSA) eval(v ssa.Value, t tuple, depth int) (int64, bool) {
 	}
 	switch x := v.(type) {
 	case *ssa.BinOp:
+		// s == "" / s != "" is a test of len(s) when that length is tracked
+		if x.Op == token.EQL || x.Op == token.NEQ {
+			for _, pair := range [][2]ssa.Value{{x.X, x.Y}, {x.Y, x.X}} {
+				if c, isC := pair[1].(*ssa.Const); isC && c.Value != nil && c.Value.Kind() == constant.String && constant.StringVal(c.Value) == "" {
+					want := "len(" + a.B.Of(pair[0], nil).String() + ")"
+					for i, tr := range a.Tracked {
+						if tr == want {
+							if (t[i] == 0) == (x.Op == token.EQL) {
+								return 1, true
+							}
+							return 0, true
+						}
+					}
+				}
+			}
+		}
 		l, ok1 := a.eval(x.X, t, depth+1)
 		r, ok2 := a.eval(x.Y, t, depth+1)
 		if !ok1 || !ok2 {
